@@ -13,7 +13,7 @@ class C12Kernel(KernelProp):
     n_ops = (10, 40)
     weights = {"new": 14, "enter": 16, "exit": 12, "add": 3, "addf": 6, "getnw": 9, "get": 3, "finish": 1,
                "getall": 0, "addtd": 5, "current": 22, "parent": 8, "spawn": 6, "state": 1, "inject": 2}
-    gen_kwargs = {"max_ctx": 8, "max_tasks": 4, "malformed": 0.0, "wrong_state": 0.03, "exc_end": 0.5, "p_cancel": 0.15, "p_manual": 0.06, "p_mid": 0.15, "p_cur_after": 0.5}
+    gen_kwargs = {"max_ctx": 8, "max_tasks": 4, "malformed": 0.0, "wrong_state": 0.03, "exc_end": 0.5, "p_cancel": 0.15, "p_manual": 0.06, "p_mid": 0.15, "p_cur_after": 0.5, "p_comp": 0.2}
     rule = ("nesting depth <=6, up to 4 tasks spawned from inside and outside blocks, each entering/leaving its own "
             "contexts; exits by return / Exception / BaseException / cancellation / failing teardown; current_context() and "
             "Context.parent sampled throughout. Non-trivial: >=2 tasks each with an open block at the same time, or a "
